@@ -835,6 +835,16 @@ func (in *Interp) appendCall(st *State, call *ast.CallExpr) Val {
 	if sv.Path != "" && sv.Base == "" {
 		out.Base = sv.Path
 	}
+	// appending onto a list of the receiver (or of an argument): where its array has spare capacity the
+	// new element is written into memory the value shares with whoever else holds that array
+	if root := sv.Path; root != "" && len(call.Args) > 1 && (strings.HasPrefix(root, "$.") || strings.HasPrefix(root, "arg:")) {
+		cr := &CallRec{Pos: call.Pos(), Guard: in.guard(), Text: "append-onto-field:" + root}
+		for i := in; i != nil; i = i.parent {
+			if i.parent == nil {
+				i.Calls = append(i.Calls, cr)
+			}
+		}
+	}
 	out.Elems = append(out.Elems, sv.Elems...)
 	if call.Ellipsis != token.NoPos && len(call.Args) == 2 {
 		av := in.eval(st, call.Args[1])
@@ -1303,6 +1313,20 @@ func (sub *Interp) runBody(st *State, ft *ast.FuncType, body *ast.BlockStmt, env
 						if jv, ok := sub.joinBufVals(st, good[i].St, good[i].Guard, av, bv); ok {
 							out = jv
 						}
+					}
+					// a buffer on this return, nil on the others ("not found"): what the caller indexes after its
+					// nil test is the buffer, with whatever length it has
+					if _, isNil := prev.(NilV); isNil && good[i].St != nil {
+						if ob := good[i].St.bufs[av.ID]; ob != nil {
+							if _, known := st.bufs[av.ID]; !known {
+								st.bufs[av.ID] = ob.clone()
+							}
+							out = av
+						}
+					}
+				} else if _, isNil := good[i].Vals[0].(NilV); isNil {
+					if bv, ok := prev.(BufV); ok {
+						out = bv
 					}
 				}
 			}
